@@ -8,6 +8,10 @@ chain of StreamToQueue(code) stages go through real StreamToQueue objects whose 
 next stage and finally into the router - and compares after EVERY call what each sink (and the fallback) has newly
 received.  Run with Variant="asCoded" (add_rule in a run starts the new sink whatever do_start_stop_run says, as
 real.py:604-605 does) the spec must violate StartStopExact.
+
+rt_expRe.cfg (MaxReent > 0): startTestRun / stopTestRun at the grain of the code (a loop over the live _sinks list,
+then the _in_run assignment) with re-entrant add_rule from the sink that has just been started / stopped; invariant
+StartStopBalanced; replayed by replay_loop over ReSink doubles.  Variant="snapshot" must violate StartStopBalanced.
 """
 
 import datetime
@@ -277,6 +281,125 @@ def replay(conf, hist, drift=None):
     return bad
 
 
+class ReSink(Sink):
+    """Recording sink whose startTestRun / stopTestRun perform the re-entrant add_rule calls the behaviour
+    schedules for that invocation (plan: (sink name, method) -> one list of rules per invocation, in order)."""
+
+    def __init__(self, name, env):
+        Sink.__init__(self)
+        self.name = name
+        self.env = env
+
+    def _reenter(self, method):
+        lst = self.env["plan"].get((self.name, method))
+        rules = lst.pop(0) if lst else []
+        for r in rules:
+            self.env["done"] += 1
+            add_rule(self.env["router"], self.env["sinks"], r)
+
+    def startTestRun(self):
+        Sink.startTestRun(self)
+        self._reenter("startTestRun")
+
+    def stopTestRun(self):
+        Sink.stopTestRun(self)
+        self._reenter("stopTestRun")
+
+
+LOOP = {"beginStart": ("startTestRun", "startSink", "endStart"), "beginStop": ("stopTestRun", "stopSink", "endStop")}
+
+
+def replay_loop(conf, hist):
+    """Replay one behaviour of the loop-grain instance (rt_expRe.cfg): beginX .. endX is ONE real
+    router.startTestRun() / stopTestRun(); the reAdd entries between two loop steps are performed by the sink that
+    the preceding step started / stopped, from inside that very method.  After each top-level call every sink's
+    newly received startTestRun / stopTestRun entries are compared with the spec's."""
+    from testtools.testresult import real
+
+    env = {"plan": {}, "done": 0}
+    sinks = {s: ReSink(s, env) for s in SINKS}
+    env["sinks"] = sinks
+    if conf["fallback"] == "none":
+        router = real.StreamResultRouter()
+    else:
+        router = real.StreamResultRouter(sinks["fb"], do_start_stop_run=conf["fbss"])
+    env["router"] = router
+    bad = []
+    i = 0
+    while i < len(hist):
+        h = hist[i]
+        a = h["a"]
+        exp = {s: [x["a"] for x in h["new"][s]] for s in SINKS}
+        j = i
+        if a in LOOP:
+            method, step, end = LOOP[a]
+            plan, cur, nre, where = {}, None, 0, []
+            while hist[j]["a"] != end:
+                j += 1
+                g = hist[j]
+                if g["a"] == step:
+                    cur = (g["r"]["sink"], method)
+                    plan.setdefault(cur, []).append([])
+                elif g["a"] == "reAdd":
+                    if cur is None:
+                        raise tlc.MachineryError("C18 loop behaviour: reAdd before the first loop step")
+                    plan[cur][-1].append(g["r"])
+                    nre += 1
+                    where.append("dss=%s" % g["r"]["dss"])
+                elif g["a"] != end:
+                    raise tlc.MachineryError("C18 loop behaviour: %s inside %s" % (g["a"], a))
+                for s in SINKS:
+                    exp[s] += [x["a"] for x in g["new"][s]]
+            ctx = "%s:reentrant-adds=%s" % (method, ",".join(where) or "0")
+            env["plan"], env["done"] = plan, 0
+            call = getattr(router, method)
+        elif a == "addRule":
+            ctx = "addRule:%s:dss=%s" % ("in-run" if h["inrun"] else "out-of-run", h["r"]["dss"])
+            nre = 0
+            env["plan"], env["done"] = {}, 0
+            call = lambda: add_rule(router, sinks, h["r"])
+        else:
+            raise tlc.MachineryError("C18 loop behaviour: unexpected top-level action %s" % a)
+        exc = None
+        try:
+            call()
+        except tlc.MachineryError:
+            raise
+        except Exception as ex:
+            exc = ex
+        if exc is not None:
+            bad.append((j, "StartStopBalanced", "StartStopBalanced:raised:%s:%s" % (type(exc).__name__, ctx), None, repr(exc)))
+            break
+        for s in SINKS:
+            new = sinks[s].entries[sinks[s].seen :]
+            sinks[s].seen = len(sinks[s].entries)
+            g, w = names(new), "+".join(exp[s]) or "-"
+            if g != w:
+                role = "fallback" if s == "fb" else "rule-sink"
+                bad.append(
+                    (
+                        j,
+                        "StartStopBalanced",
+                        "StartStopBalanced:%s:%s:got=%s:want=%s" % (ctx, role, g, w),
+                        {"sink": s, "new": w, "whole-log": None},
+                        {"sink": s, "new": g, "whole-log": names(sinks[s].entries)},
+                    )
+                )
+        if env["done"] != nre and not bad:
+            raise tlc.MachineryError("C18 loop behaviour: %d of %d scheduled re-entrant add_rule calls ran, logs equal" % (env["done"], nre))
+        if bad:
+            break  # after a deviation the scheduled re-entrant calls no longer line up
+        i = j + 1
+    return bad
+
+
+def nontrivial_key_loop(conf, hist):
+    """Non-trivial: at least one re-entrant add_rule."""
+    if not any(h["a"] == "reAdd" for h in hist):
+        return None
+    return jdump([conf, [(h["a"], h["r"]) for h in hist]])
+
+
 def nontrivial_key(conf, hist):
     """Non-trivial: a status event with >= 2 candidate destinations (several rules, or a rule and a fallback),
     an event that went through StreamToQueue, a rule added while a run was in progress, or a rejected add_rule."""
@@ -300,15 +423,17 @@ def nontrivial_key(conf, hist):
 def _abstract(conf, hist):
     out = ["router(fallback=%s, do_start_stop_run=%s)" % (conf["fallback"], conf["fbss"])]
     for h in hist:
-        if h["a"] == "addRule":
+        if h["a"] in ("addRule", "reAdd"):
             r = h["r"]
             out.append(
-                "add_rule(%s, %s=%s%s%s)"
-                % (r["sink"], r["kind"], r["key"], ", consume" if r["consume"] else "", ", start_stop" if r["dss"] else "")
+                "%sadd_rule(%s, %s=%s%s%s)"
+                % ("  re-entrant " if h["a"] == "reAdd" else "", r["sink"], r["kind"], r["key"], ", consume" if r["consume"] else "", ", start_stop" if r["dss"] else "")
             )
         elif h["a"] == "addRuleRejected":
             r = h["r"]
             out.append("add_rule(%s, <%s>%s) -> rejected" % (r["sink"], r["kind"], ", start_stop" if r["dss"] else ""))
+        elif h["a"] in ("startSink", "stopSink"):
+            out.append("  %s -> %s" % (h["a"], h["r"]["sink"]))
         elif h["a"] == "status":
             e = h["e"]
             out.append(
@@ -320,7 +445,8 @@ def _abstract(conf, hist):
     return out
 
 
-INVARIANTS = ("OneDestination", "PushPopInverse", "StartStopExact")
+INVARIANTS = ("OneDestination", "PushPopInverse", "StartStopExact", "StartStopBalanced")
+LOOP_ACTS = ["BeginStart", "StartSink", "EndStart", "BeginStop", "StopSink", "EndStop", "ReAdd", "AddRule"]
 
 
 def run(tier, pid="C18"):
@@ -336,10 +462,14 @@ def run(tier, pid="C18"):
         "comparison of every sink. Non-trivial = a status event with >= 2 candidate destinations, an event that went "
         "through StreamToQueue, a rule added during a run, or an add_rule call the router must reject (\"/\" in the "
         "prefix, unknown policy, misspelt policy keyword; with and without do_start_stop_run, in and out of a run, "
-        "followed by later runs and valid rules for the same sink); distinct by (configuration, call sequence).",
+        "followed by later runs and valid rules for the same sink); distinct by (configuration, call sequence). "
+        "rt_expRe.cfg: startTestRun / stopTestRun as loops over the live sink list with <= 2 add_rule calls made "
+        "re-entrantly by the sink just started / stopped (replayed as one real call over sink doubles that make those "
+        "calls); non-trivial there = at least one re-entrant add_rule.",
     )
     rep.assume("two rules for the same key, and registering one sink twice for start/stop, are outside the property (ambiguous / 'once per run')")
     rep.assume("status() is called between startTestRun and stopTestRun")
+    rep.assume("re-entrant add_rule is modelled only from inside the router's own start / stop loop, not from a sink that add_rule itself starts")
     rep.assume("with no destination the call must raise (any exception) and deliver nothing")
     rep.assume("a rejected add_rule must raise and change nothing observable; the exception class (docstring: ValueError for an unknown policy, TypeError for bad policy arguments) is reported as DRIFT only")
     rep.assume("queue items are handed on the way ConcurrentStreamTestSuite does: pop 'event', status(**item)")
@@ -350,6 +480,7 @@ def run(tier, pid="C18"):
         ("rt_expSS.cfg", {}, True, acts[:3]),
         ("rt_expMix.cfg", {}, True, acts),
         ("rt_expRej.cfg", {}, True, acts + ["AddRuleRejected"]),
+        ("rt_expRe.cfg", {}, True, LOOP_ACTS),
     ]
     if q:
         jobs.append(("rt_simA.cfg", dict(simulate=dict(num=100, depth=30), seed=rep.seed + 21), True, acts + ["AddRuleRejected"]))
@@ -370,9 +501,10 @@ def run(tier, pid="C18"):
             n += 1
             conf = {"fallback": b["fallback"], "fbss": b["fbss"]}
             hist = b["hist"]
-            nk = nontrivial_key(conf, hist)
+            loop = cfg == "rt_expRe.cfg"
+            nk = nontrivial_key_loop(conf, hist) if loop else nontrivial_key(conf, hist)
             drift = []
-            bad = replay(conf, hist, drift)
+            bad = replay_loop(conf, hist) if loop else replay(conf, hist, drift)
             for d in drift:
                 rep.note_drift(d)
             rep.case(
@@ -403,6 +535,13 @@ def run(tier, pid="C18"):
             "C18 rt_mcRegFirst.cfg: the registerFirst variant (sink registered before the rule is validated) should "
             "violate StartStopExact, TLC says violated=%s error=%s" % (r.violated, r.error)
         )
+    r = tlc.run_tlc("stream", "MCRouter", "rt_mcSnap.cfg", timeout=600, workers=8)
+    if r.violated != "StartStopBalanced":
+        raise tlc.MachineryError(
+            "C18 rt_mcSnap.cfg: the snapshot variant (start / stop loops over a copy of _sinks) should violate "
+            "StartStopBalanced, TLC says violated=%s error=%s" % (r.violated, r.error)
+        )
+    rep.extra["snapshot_variant"] = ["rt_mcSnap.cfg: StartStopBalanced violated"]
     rep.extra["asCoded_variant"] = ["rt_mcCoded.cfg: StartStopExact violated", "rt_mcRegFirst.cfg: StartStopExact violated"]
     if not rep.samples:
         rep.sample({"note": "see tlc_runs"})
@@ -417,7 +556,10 @@ def replay_file(path, pid="C18"):
     use_repo()
     v = json.load(open(path))
     sc = v["scenario"]
-    bad = replay(sc["conf"], sc["behaviour"])
+    if sc.get("cfg") == "rt_expRe.cfg":
+        bad = replay_loop(sc["conf"], sc["behaviour"])
+    else:
+        bad = replay(sc["conf"], sc["behaviour"])
     if bad:
         print("VIOLATION property=C18 replay=%s" % path)
         for b in bad:
